@@ -39,9 +39,13 @@ def oracle(case, rec, group):
     if rec["exn"] is not None:
         out.append(dict(op="index", key="raised:%s" % rec["exn"], what="array program raised %s where the list twin completes" % rec["exn"], msg=rec["msg"]))
         return out
-    got = rec["final_regs"]
+    # the value each read returned AT THE TIME of the read (a row read with a public index is a view of the array:
+    # comparing final register contents would see later writes through it)
+    at = dict((pc, iv) for pc, iv in rec["vals"])
+    pc_of = {s[1]: i + 1 for i, s in enumerate(case["prog"]) if s[0] == "arrget"}
     for r, w in want.items():
-        g = val_of(got.get(str(r)))
+        if pc_of.get(r) not in at: continue
+        g = val_of(at[pc_of[r]])
         if g != w:
             out.append(dict(op="access", key="value", what="register %d holds %r, the plain-list program gives %r (a read returned another element, or a write changed another element)" % (r, g, w)))
             break
